@@ -80,6 +80,11 @@ impl Regions {
     pub(crate) fn set_min_len(&mut self, len: usize) -> Result<()> {
         let file_len = self.file_len()?;
         if file_len < len {
+            #[cfg(anydb_verif)]
+            crate::verif::emit(crate::verif::Event::SetLen {
+                file: crate::verif::FileKind::Regions,
+                len,
+            });
             self.file.set_len(len as u64)?;
             self.mmap = create_mmap(&self.file)?;
         }
@@ -175,18 +180,39 @@ impl Regions {
 
     /// Schedules metadata writeback. Caller must follow with `sync_data()`.
     pub(crate) fn flush(&self) -> Result<()> {
+        #[cfg(anydb_verif)]
+        crate::verif::emit(crate::verif::Event::FlushAsync {
+            file: crate::verif::FileKind::Regions,
+            off: 0,
+            len: self.mmap.len(),
+        });
         self.mmap.flush_async()?;
         Ok(())
     }
 
     pub(crate) fn sync_data(&self) -> Result<()> {
+        #[cfg(anydb_verif)]
+        crate::verif::emit(crate::verif::Event::SyncBegin {
+            file: crate::verif::FileKind::Regions,
+        });
         self.file.sync_data()?;
+        #[cfg(anydb_verif)]
+        crate::verif::emit(crate::verif::Event::SyncEnd {
+            file: crate::verif::FileKind::Regions,
+        });
         Ok(())
     }
 
     pub(crate) fn write_at(&self, index: usize, data: &[u8]) {
         debug_assert_eq!(data.len(), SIZE_OF_REGION_METADATA);
         let offset = index * SIZE_OF_REGION_METADATA;
+        #[cfg(anydb_verif)]
+        crate::verif::emit(crate::verif::Event::MmapWrite {
+            file: crate::verif::FileKind::Regions,
+            off: offset,
+            len: data.len(),
+            src: data.as_ptr(),
+        });
         write_to_mmap(&self.mmap, offset, data);
     }
 
